@@ -20,6 +20,7 @@ type Profile struct {
 	SharedPrefix                                                                       int // percent of choices whose alternatives share a prefix
 	MaxRune                                                                            bool
 	CaptureOnly                                                                        int  // percent of backtrack points (choices, lookaheads, optional/repeated elements) whose operand is built from terminals and captures only
+	RecSplice                                                                          int  // percent of grammars that get a nested-group idiom (recursive alternative sharing its first character with a sibling)
 	MemoSplice                                                                         int  // percent of grammars with a re-enter-after-overwrite choice (memo splice)
 	RefHeavy                                                                           bool // rule bodies are sequences of references and captures
 	Dispatch                                                                           int  // percent of choices built as first-character dispatch (what -switch rewrites)
@@ -27,7 +28,7 @@ type Profile struct {
 
 var Profiles = map[string]Profile{
 	"plain":      {Name: "plain", MinRules: 2, MaxRules: 6, Depth: 3, AltMin: 2, AltMax: 4, SeqMax: 4, WTerm: 22, WSeq: 20, WAlt: 18, WOpt: 6, WStar: 6, WPlus: 6, WAnd: 4, WNot: 4, WCap: 6, WRef: 8, WAct: 6, WPred: 2, WState: 1, Hostile: 8, Newline: 2},
-	"switchy":    {Name: "switchy", Dispatch: 60, MinRules: 2, MaxRules: 6, Depth: 3, AltMin: 3, AltMax: 6, SeqMax: 3, WTerm: 22, WSeq: 16, WAlt: 30, WOpt: 6, WStar: 5, WPlus: 4, WAnd: 5, WNot: 5, WCap: 4, WRef: 10, WAct: 4, WPred: 1, WState: 0, Hostile: 6, Newline: 1},
+	"switchy":    {Name: "switchy", Dispatch: 60, RecSplice: 40, MinRules: 2, MaxRules: 6, Depth: 3, AltMin: 3, AltMax: 6, SeqMax: 3, WTerm: 22, WSeq: 16, WAlt: 30, WOpt: 6, WStar: 5, WPlus: 4, WAnd: 5, WNot: 5, WCap: 4, WRef: 10, WAct: 4, WPred: 1, WState: 0, Hostile: 6, Newline: 1},
 	"backtracky": {Name: "backtracky", MemoSplice: 50, CaptureOnly: 35, MinRules: 2, MaxRules: 5, Depth: 3, AltMin: 2, AltMax: 4, SeqMax: 4, WTerm: 18, WSeq: 22, WAlt: 22, WOpt: 5, WStar: 5, WPlus: 4, WAnd: 6, WNot: 4, WCap: 10, WRef: 12, WAct: 10, WPred: 1, WState: 0, Hostile: 3, Newline: 1, SharedPrefix: 60},
 	"deep":       {Name: "deep", CaptureOnly: 10, MinRules: 3, MaxRules: 7, Depth: 4, AltMin: 2, AltMax: 3, SeqMax: 3, WTerm: 14, WSeq: 22, WAlt: 12, WOpt: 6, WStar: 6, WPlus: 6, WAnd: 2, WNot: 2, WCap: 14, WRef: 18, WAct: 8, WPred: 1, WState: 0, Hostile: 10, Newline: 2},
 	"erry":       {Name: "erry", RefHeavy: true, MinRules: 4, MaxRules: 7, Depth: 3, AltMin: 2, AltMax: 3, SeqMax: 5, WTerm: 14, WSeq: 30, WAlt: 10, WOpt: 6, WStar: 5, WPlus: 6, WAnd: 2, WNot: 2, WCap: 14, WRef: 30, WAct: 2, WPred: 1, WState: 0, Hostile: 15, Newline: 20},
@@ -316,6 +317,18 @@ func (s *genState) expr(i, depth int, must, guarded bool) *Expr {
 	case "not":
 		return Un(KNot, s.expr(i, depth-1, false, guarded))
 	case "cap":
+		if !must && !s.noNames && s.pct(25, "nullcap") {
+			// a capture that may match the empty string, after a non-empty one, each followed
+			// by an action that reads text
+			inner := s.term()
+			var nullable *Expr
+			if s.pct(50, "nullcapstar") {
+				nullable = Un(KStar, inner)
+			} else {
+				nullable = Un(KOpt, inner)
+			}
+			return Seq(Un(KCap, s.term()), &Expr{K: KAct}, Un(KCap, nullable), &Expr{K: KAct})
+		}
 		return Un(KCap, s.expr(i, depth-1, must, guarded))
 	case "act", "pred", "state":
 		if kind == "pred" {
@@ -395,6 +408,11 @@ func (s *genState) dispatch(i, depth int, must, guarded bool) *Expr {
 			}
 		case k == 13:
 			alt.Kids = append(alt.Kids, Un(KOpt, &Expr{K: KAlt, Kids: []*Expr{small("no1"), small("no2")}}))
+		case k == 14 && guarded:
+			// recursion: a reference to any rule (possibly the one being generated, or an
+			// ancestor) in front of the leading character; safe because input has been
+			// consumed before this choice
+			alt.Kids = append(alt.Kids, Ref(rapid.IntRange(0, s.n-1).Draw(t, "drec")))
 		case k == 4:
 			lead = &Expr{K: KAlt, Kids: []*Expr{small("n1"), small("n2")}}
 		case k == 5:
@@ -531,6 +549,40 @@ func (s *genState) memoSplice(g *Grammar) {
 	s.rules = g.Rules
 }
 
+// recSplice adds the nested-group idiom  G <- open B ;  B <- G close / leaf1 / leaf2 / open leaf3
+// (plus variations) and lets the first rule try it first. The recursive alternative "G close"
+// and the sibling "open leaf3" start with the same character, while G is still being analysed
+// when B's choice is looked at.
+func (s *genState) recSplice(g *Grammar) {
+	t := s.t
+	chars := rapid.Permutation([]rune{'(', ')', 'x', 'y', 'z', '[', ']', 'a', 'b'}).Draw(t, "rschars")
+	open, cls, l1, l2, l3 := chars[0], chars[1], chars[2], chars[3], chars[4]
+	lit := func(r rune) *Expr { return &Expr{K: KLit, Runes: []rune{r}} }
+	base := len(g.Rules)
+	gi, bi := base, base+1
+	body := &Expr{K: KAlt, Kids: []*Expr{Seq(Ref(gi), lit(cls)), lit(l1), lit(l2), Seq(lit(open), lit(l3))}}
+	switch rapid.IntRange(0, 3).Draw(t, "rsvar") {
+	case 1: // the overlapping sibling comes first
+		body.Kids[0], body.Kids[3] = body.Kids[3], body.Kids[0]
+	case 2: // the recursion goes through a capture
+		body.Kids[0] = Seq(Un(KCap, Ref(gi)), lit(cls))
+	case 3: // five alternatives, recursion in the middle
+		body.Kids = []*Expr{lit(l1), Seq(Ref(gi), lit(cls)), lit(l2), Seq(lit(open), lit(l3)), lit(cls)}
+	}
+	var group *Expr
+	if rapid.Bool().Draw(t, "rsinline") {
+		group = Seq(lit(open), Ref(bi)) // B referenced once: inlined under -inline
+	} else {
+		group = Seq(lit(open), Ref(bi), Un(KOpt, Seq(lit(l1), Ref(bi))))
+	}
+	g.Rules = append(g.Rules, &Rule{Name: fmt.Sprintf("R%d", gi), Body: group}, &Rule{Name: fmt.Sprintf("R%d", bi), Body: body})
+	g.Rules[0].Body = &Expr{K: KAlt, Kids: []*Expr{Seq(Ref(gi), Un(KNot, &Expr{K: KDot})), g.Rules[0].Body}}
+	s.n = len(g.Rules)
+	s.ruleMust = append(s.ruleMust, true, true)
+	s.known = append(s.known, true, true)
+	s.rules = g.Rules
+}
+
 // WellFormedGrammar draws a well-formed grammar of the profile. Every rule is reachable
 // from the first one.
 func WellFormedGrammar(t *rapid.T, p Profile) *Grammar {
@@ -558,6 +610,9 @@ func WellFormedGrammar(t *rapid.T, p Profile) *Grammar {
 	g := &Grammar{Package: "g", Struct: "G", Rules: s.rules}
 	if s.pct(p.MemoSplice, "memosplice") {
 		s.memoSplice(g)
+	}
+	if s.pct(p.RecSplice, "recsplice") {
+		s.recSplice(g)
 	}
 	// reachability: append references to unreachable rules to the first rule
 	reach := g.Reachable()
